@@ -186,7 +186,9 @@ CLAIMED["C21"] = (
     "action per serviceTxGramsOnce() with the transport's answer: accept k of the offered bytes, 0 = would block, or unreachable): "
     "TLC exhaustive MC of WireExact/NoLoss/OneInFlight; histories (all short + tlc -simulate) executed on a real Memoer with "
     "scripted send() and on real UDP and UXD PeerMemoers over a scripted datagram socket, bytes accepted per destination compared "
-    "after each call and a final drain with an all-accepting transport (spec->code)",
+    "after each call and a final drain with an all-accepting transport (spec->code); beyond the property, specs/help/Deck.tla (the "
+    "queue class of the message paths: push/pull/append/appendleft/extend/pop/clear) is model checked and replayed on real Deck "
+    "objects the same way, differences recorded as divergences",
     "Exhaustive model checking of the transmit discipline for all acceptance patterns within the bounds plus conformance of the "
     "three real classes on every enumerated and on thousands of simulated histories.", "3 C21",
     "Queue length and remainder in flight are compared with the model too, but a difference there alone is a recorded divergence; "
